@@ -272,7 +272,7 @@ func schedString(k string, e int) string {
 // top of one the loop has not taken would block for ever (the loop needs that mutex for Now()).  A real timer drops
 // the tick instead.  So: if a tick is waiting and the timer would fire, give the loop a moment to take it; if it does
 // not (it is spinning on a busy worker) report false and let the caller decide.
-func (y *sys) safeAdd(d int) bool {
+func (y *sys) safeAdd(d int, locked func()) bool {
 	for try := 0; try < 400; try++ {
 		y.smu.Lock()
 		target := y.mock.Now().Add(time.Duration(d) * time.Second)
@@ -280,6 +280,9 @@ func (y *sys) safeAdd(d int) bool {
 			y.smu.Unlock()
 			time.Sleep(100 * time.Microsecond)
 			continue
+		}
+		if locked != nil {
+			locked() // e.g. log AdvBegin: only once it is certain that the clock will move
 		}
 		y.within("mock.Add", func() { y.mock.Add(time.Duration(d) * time.Second) })
 		y.smu.Unlock()
@@ -290,7 +293,7 @@ func (y *sys) safeAdd(d int) bool {
 
 // kick: a timer armed with Reset(0) fires by itself on a real clock; the mock only fires inside Add.
 // If the tick cannot be delivered the loop is busy anyway and will see the new item on its next round.
-func (y *sys) kick() { y.safeAdd(0) }
+func (y *sys) kick() { y.safeAdd(0, nil) }
 
 // callSchedule / callRelease / advance: the environment's moves, logged before and after.
 func (y *sys) callSchedule(id int, k string, e, o, last int) {
@@ -316,10 +319,8 @@ func (y *sys) callRelease(id int) {
 
 func (y *sys) advance(d int) bool {
 	to := rel(y.mock.Now()) + d
-	y.t.Event("AdvBegin", rt.M{"to": to})
-	if !y.safeAdd(d) {
-		y.t.Event("AdvEnd", rt.M{"to": to - d}) // the clock did not move
-		return false
+	if !y.safeAdd(d, func() { y.t.Event("AdvBegin", rt.M{"to": to}) }) {
+		return false // nothing happened, nothing logged
 	}
 	if got := rel(y.mock.Now()); got != to {
 		rt.Fatalf("c17: mock clock at %d after Add, expected %d", got, to)
@@ -416,7 +417,7 @@ func (y *sys) settle() {
 // syncLoop waits until the loop's unlogged steps have brought the scheduler where the model's quiescent schedule
 // has it before the environment's next move: s.when (None = zero) and whether a tick is waiting in the timer channel.
 func (y *sys) syncLoop(sw, tk int) bool {
-	end := time.Now().Add(2 * time.Second)
+	end := time.Now().Add(1 * time.Second)
 	for i := 0; ; i++ {
 		w := y.s.When() // RLock: never observes a pass half way
 		got := -1
